@@ -243,6 +243,11 @@ def run_batch(run, frames, label, wit_extra=None, followups=(), big_device=False
             run.count("requests_checked_for_exactly_one_reply", n)
             if label == "segmented-answer-dialogue" and got >= 1:
                 continue            # what follows the first segment depends on the client's (scripted, possibly broken) follow-ups
+            # a segment of a segmented request with the same invoke id in the same batch opens (or disturbs) a transaction of
+            # its own and may be answered too (abort / reject): up to one more reply per such frame
+            slack = sum(1 for cc in classes if cc["class"] == "segmented-request" and cc.get("invoke") == inv and cc["station"] == INJ)
+            if n <= got <= n + slack:
+                continue
             if got != n:
                 which = [i for i, c in enumerate(classes) if c.get("invoke") == inv]
                 ap = classes[which[0]]["apci"]
